@@ -12,3 +12,15 @@ static HTTP_CLIENT: LazyLock<reqwest::Client> = LazyLock::new(|| {
         .build()
         .expect("failed to build reqwest client")
 });
+
+/// Verification hook (feature `verif-hooks`, off by default): redirects the session-server base URL to the value of
+/// `PASSAGE_VERIF_SESSION_URL`, so that a replay harness can observe the exact request on a loopback socket.
+#[cfg(feature = "verif-hooks")]
+pub mod verif_hooks {
+    pub fn rebase(url: &str) -> String {
+        match std::env::var("PASSAGE_VERIF_SESSION_URL") {
+            Ok(base) => url.replacen("https://sessionserver.mojang.com", &base, 1),
+            Err(_) => url.to_string(),
+        }
+    }
+}
